@@ -1,6 +1,8 @@
 # SPDX-License-Identifier: BSD-3-Clause
 # Copyright (c) 2024 Osyris contributors (https://github.com/osyris-project/osyris)
 
+from copy import copy
+
 from matplotlib.colors import LogNorm, Normalize, SymLogNorm
 
 from ..core.layer import Layer
@@ -23,6 +25,13 @@ def get_norm(norm=None, vmin=None, vmax=None):
                 " are 'log', 'symlog' and 'linear'.".format(norm)
             )
     else:
+        # A norm object: matplotlib scales a norm in place when drawing, so every
+        # layer gets its own copy; the limits apply as for the named norms
+        norm = copy(norm)
+        if vmin is not None:
+            norm.vmin = vmin
+        if vmax is not None:
+            norm.vmax = vmax
         return norm
 
 
